@@ -69,7 +69,9 @@ Print Assumptions C10_mirror_bisimulation.
     to == on the rationals (position, depth class, age, scalar) —; the same number of particles was released;
     and the two runs wrote the same number of records, each at the same step with the same (pid, row, values).
     The releaser of the set-up works in either mode ([s_cont]): discrete release of the table rows at their
-    times, or continuous release (discretize() on the frequency grid; tables satisfying C04's [cont_ok]). *)
+    times, or continuous release (discretize() on the frequency grid; tables satisfying C04's [cont_ok]).
+    The physics of the set-up includes LAND cells along the particle line ([s_land]): u-faces next to land
+    masked to zero, moves onto land cancelled, death outside the valid interval (stated in Props/C09.v). *)
 Theorem C10_closed_mirror : forall s, setup_ok s = true ->
   setup_ok (mirror_setup s) = true /\ srel pv pv Z pv_eq (m_run s) (m_run (mirror_setup s)).
 Proof. exact mirror_invariance. Qed.
@@ -81,6 +83,16 @@ Example C10_closed_ex :
   map (map (fun r : record => fst (fst r))) (s_files (mirror_setup ex_setup)) = [[7200; 6000]; [4800; 3600]] /\
   show_run (m_run (mirror_setup ex_setup)) = show_run (m_run ex_setup) /\
   length (recs (m_run ex_setup)) = 3%nat.
+Proof. vm_compute. repeat split. Qed.
+
+(** non-vacuity, LAND: the reversed set-up [ex_setup_land] (land in cell 4: masked u-face, two cancelled moves of
+    the particle released at x = 5 — its position in the first four records) and its forward mirror image *)
+Example C10_closed_land_ex :
+  s_land (mirror_setup ex_setup_land) = [4] /\ setup_ok ex_setup_land = true /\ setup_ok (mirror_setup ex_setup_land) = true /\
+  rev (s_tk (mirror_setup ex_setup_land)) = false /\
+  show_run (m_run (mirror_setup ex_setup_land)) = show_run (m_run ex_setup_land) /\
+  map (fun x : rec pv => map (fun y : Z * Z * pv => Qred (vx (snd y))) (firstn 1 (rrows x))) (firstn 4 (recs (m_run ex_setup_land))) =
+    [[5%Q]; [5%Q]; [5%Q]; [(73 # 16)%Q]].
 Proof. vm_compute. repeat split. Qed.
 
 (** non-vacuity, continuous release: the forward set-up [ex_setup_cont] (release every 1200 s) and its mirror
